@@ -715,6 +715,28 @@ func c10Run(c *mc.Ctx) {
 		c10PartC(c, backends)
 		c10PartD(c, backends)
 	}
+	// ---- Part E: symbols near the 255-byte limit (well-formed keys): the name of the translation, or of a
+	// fallback the backend tries first, may not exist as a name on the backend - that is "not there", not an error
+	if strings.Contains(parts, "A") && c.Mine() {
+		k251, k252 := strings.Repeat("k", 251), strings.Repeat("k", 252)
+		for _, seq := range [][]ref.KVOp{
+			{{Op: "prefix", Typ: ref.TTemplate}, {Op: "lock", Typ: ref.TTemplate, On: false}, {Op: "put", Key: ref.Bs(k251), Val: "text"}, {Op: "lang", Lang: "nor"}, {Op: "get", Key: ref.Bs(k251)}},
+			{{Op: "prefix", Typ: ref.TTemplate}, {Op: "lang", Lang: "nor"}, {Op: "get", Key: ref.Bs(k251)}},
+			{{Op: "prefix", Typ: ref.TBin}, {Op: "get", Key: ref.Bs(k252)}},
+			{{Op: "prefix", Typ: ref.TUserData}, {Op: "session", Sess: "ss"}, {Op: "put", Key: ref.Bs(k251[:240]), Val: "text"}, {Op: "get", Key: ref.Bs(k251[:240])}},
+		} {
+			for _, b := range backends {
+				if b.Binary {
+					continue // base64 names: these keys are beyond what binary-key mode can store at all
+				}
+				viols, steps := c10RunSeq(b, seq, true, nil)
+				c.Count("evaluations", 1)
+				c.Count("long_key_sequences", 1)
+				c.Count("transitions", int64(steps))
+				report(b, seq, viols)
+			}
+		}
+	}
 	if c.TimeUp() {
 		return
 	}
